@@ -98,11 +98,16 @@ def run(m, U):
     lines[i] = new
     open(p, 'w').write('\n'.join(lines))
     env = dict(os.environ, CARGO_NET_OFFLINE='true', CARGO_TARGET_DIR=d + '/target')
+    # own process group, killed as a whole on timeout: a mutant can make a test binary loop for ever
+    import signal
+    pr = subprocess.Popen(['cargo', 'test', '--workspace', '--offline', '-q'], cwd=d, env=env, stdout=subprocess.PIPE,
+                          stderr=subprocess.STDOUT, text=True, start_new_session=True)
     try:
-        t = subprocess.run(['cargo', 'test', '--workspace', '--offline', '-q'], cwd=d, env=env, stdout=subprocess.PIPE,
-                           stderr=subprocess.STDOUT, text=True, timeout=600)
-        suite = t.returncode
+        pr.communicate(timeout=600)
+        suite = pr.returncode
     except subprocess.TimeoutExpired:
+        os.killpg(pr.pid, signal.SIGKILL)
+        pr.communicate()
         suite = 'timeout'
     res = {'file': f, 'line': i + 1, 'fn': fn, 'what': what, 'new': new.strip(), 'suite': suite, 'checks': {}}
     if suite != 0:
